@@ -1257,12 +1257,15 @@ class ManifestRecursiveLoader:
                     if relpath in self.updated_manifests:
                         continue
 
+                # entries that come from a Manifest found only now were
+                # never checked by us: mtime says nothing about them
                 changed = update_entry_for_path(
                     os.path.join(dirpath, f),
                     fe,
                     hashes=hashes,
                     expected_dev=self.manifest_device,
-                    last_mtime=last_mtime)
+                    last_mtime=(None if mpath in new_manifests
+                                else last_mtime))
                 if changed and mpath is not None:
                     self.updated_manifests.add(mpath)
 
